@@ -3,6 +3,7 @@ package segment
 import (
 	"bytes"
 	"encoding/binary"
+	"time"
 
 	"github.com/aptpod/iscp-go/internal/vf"
 )
@@ -237,6 +238,65 @@ func zzC14eSecond() {
 		vf.Assert("index-beyond-announced-count-discarded", !done && out == nil)
 		nb := rb.ReadBuffer[seq]
 		vf.Assert("completion-state-unchanged", nb != nil && nb.SegCount == count0 && nb.MsgSize == size0 && len(nb.Msgs) == int(max1)+1)
+	}
+	vf.Reach("end")
+}
+
+// C14.f: incomplete messages are forgotten after the expiry time - exactly after it, counted from the
+// last datagram received for that message - and a forgotten message is never completed by a late
+// segment; a message that is still fresh is not touched by the sweep.
+func zzC14fExpiry() {
+	expiry := time.Duration(vf.I64("expiry"))
+	vf.Assume(expiry > 0 && expiry <= time.Hour)
+	rb := &ReadBuffers{ReadBuffer: map[uint32]*ReadBuffer{}, ReadBufferExpiry: expiry}
+	s1, s2 := vf.U32("seq1"), vf.U32("seq2")
+	vf.Assume(s1 != s2)
+	a0, a1, a2 := vf.BytesN("a0", 1), vf.BytesN("a1", 1), vf.BytesN("a2", 1)
+	b0, b1 := vf.BytesN("b0", 1), vf.BytesN("b1", 1)
+	// message 1 (3 segments): first segment now
+	_, done, _ := rb.Receive(zzHeader(s1, 2, 0, a0))
+	vf.Assert("incomplete", !done)
+	d1 := time.Duration(vf.I64("wait1"))
+	vf.Assume(d1 >= 0 && d1 <= 2*time.Hour)
+	vf.Advance(d1)
+	// message 2 (2 segments): first segment after d1; a second segment of message 1 may refresh it
+	_, done, _ = rb.Receive(zzHeader(s2, 1, 0, b0))
+	vf.Assert("incomplete", !done)
+	refresh := vf.Choose("refresh.m1", 2) == 1 && d1 <= expiry
+	if refresh {
+		rb.RemoveExpired()
+		_, done, _ = rb.Receive(zzHeader(s1, 2, 1, a1))
+		vf.Assert("incomplete", !done)
+	}
+	d2 := time.Duration(vf.I64("wait2"))
+	vf.Assume(d2 >= 0 && d2 <= 2*time.Hour)
+	vf.Advance(d2)
+	rb.RemoveExpired()
+	// which messages must still be known
+	age1 := d1 + d2
+	if refresh {
+		age1 = d2
+	}
+	_, has1 := rb.ReadBuffer[s1]
+	_, has2 := rb.ReadBuffer[s2]
+	vf.Assert("m1-forgotten-iff-older-than-expiry", has1 == (age1 <= expiry))
+	vf.Assert("m2-forgotten-iff-older-than-expiry", has2 == (d2 <= expiry))
+	// the remaining segments arrive
+	if !refresh {
+		_, done, _ = rb.Receive(zzHeader(s1, 2, 1, a1))
+		vf.Assert("incomplete", !done)
+	}
+	out1, done1, _ := rb.Receive(zzHeader(s1, 2, 2, a2))
+	out2, done2, _ := rb.Receive(zzHeader(s2, 1, 1, b1))
+	if age1 <= expiry {
+		vf.Assert("fresh-m1-completed-exactly", done1 && len(out1) == 3 && out1[0] == a0[0] && out1[1] == a1[0] && out1[2] == a2[0])
+	} else {
+		vf.Assert("expired-m1-never-handed-up", !done1 && out1 == nil)
+	}
+	if d2 <= expiry {
+		vf.Assert("fresh-m2-completed-exactly", done2 && len(out2) == 2 && out2[0] == b0[0] && out2[1] == b1[0])
+	} else {
+		vf.Assert("expired-m2-never-handed-up", !done2 && out2 == nil)
 	}
 	vf.Reach("end")
 }
